@@ -631,6 +631,12 @@ def run(ctx):
         rs.missing("from_config / config::User / config::Pool")
     else:
         rs.check(len(uof) >= 4, "user-overrides", "%d per-user settings repeat a pool-level one (%s)" % (len(uof), ", ".join(x[0] for x in uof)), "per-user overrides not found")
+        from common import user_override_precedence_findings
+        for n_, ok_, det_ in user_override_precedence_findings(F) or []:
+            if ok_ is None:
+                rs.missing("the decision between User.%s and Pool.%s in from_config" % (n_, n_))
+            else:
+                rs.check(ok_, "user-override-first:" + n_, "User.%s is looked at before Pool.%s (%s)" % (n_, n_, det_), "in from_config %s: what the file says for the user is overruled by the pool section" % det_)
         for n_, ok_, sinks_, bad_ in uof:
             rs.check(ok_, "user-override-applied:" + n_, "wherever Pool.%s flows into what a pool is built with, User.%s does too (%d sink(s))" % (n_, n_, len(sinks_)),
                      "Pool.%s reaches %s without User.%s: a user's own `%s` is ignored there, the pool serves that user with the section's value" % (n_, bad_ or "nothing", n_, n_))
